@@ -30,7 +30,8 @@ from pathlib import PurePath
 import socket
 import stat
 from types import TracebackType
-from typing import Any, AnyStr, Awaitable, Callable, Dict, Generic, IO
+from typing import TYPE_CHECKING, Any, AnyStr, Awaitable, Callable, Dict
+from typing import Generic, IO
 from typing import Iterable, List, Mapping, Optional, Set, TextIO
 from typing import Tuple, Type, TypeVar, Union, cast
 from typing_extensions import Protocol, Self
@@ -50,6 +51,10 @@ from .session import DataType
 from .stream import SSHReader, SSHWriter, SSHStreamSession
 from .stream import SSHClientStreamSession, SSHServerStreamSession
 from .stream import SFTPServerFactory
+
+if TYPE_CHECKING:
+    # pylint: disable=cyclic-import
+    from .connection import SSHConnection
 
 _AnyStrContra = TypeVar('_AnyStrContra', bytes, str, contravariant=True)
 
@@ -234,7 +239,7 @@ class _AsyncFileReader(_UnicodeReader[AnyStr]):
                  encoding: Optional[str], errors: str):
         super().__init__(encoding, errors, hasattr(file, 'encoding'))
 
-        self._conn = process.channel.get_connection()
+        self._conn = process.get_connection()
         self._process: 'SSHProcess[AnyStr]' = process
         self._file = file
         self._bufsize = bufsize
@@ -318,7 +323,7 @@ class _AsyncFileWriter(_UnicodeWriter[AnyStr]):
         self._paused = False
         self._queue: asyncio.Queue[Optional[AnyStr]] = asyncio.Queue()
         self._write_task: Optional[asyncio.Task[None]] = \
-            process.channel.get_connection().create_task(self._writer())
+            process.get_connection().create_task(self._writer())
 
     async def _writer(self) -> None:
         """Process writes to the file"""
@@ -543,7 +548,7 @@ class _StreamReader(_UnicodeReader[AnyStr]):
         super().__init__(encoding, errors)
 
         self._process: 'SSHProcess[AnyStr]' = process
-        self._conn = process.channel.get_connection()
+        self._conn = process.get_connection()
         self._reader = reader
         self._bufsize = bufsize
         self._datatype = datatype
@@ -597,7 +602,7 @@ class _StreamWriter(_UnicodeWriter[AnyStr]):
         self._paused = False
         self._queue: asyncio.Queue[Optional[AnyStr]] = asyncio.Queue()
         self._write_task: Optional[asyncio.Task[None]] = \
-            process.channel.get_connection().create_task(self._feed())
+            process.get_connection().create_task(self._feed())
 
     async def _feed(self) -> None:
         """Feed data to the stream"""
@@ -836,6 +841,17 @@ class SSHProcess(SSHStreamSession, Generic[AnyStr]):
 
         assert self._chan is not None
         return self._chan
+
+    def get_connection(self) -> 'SSHConnection':
+        """Return the connection this process was started on
+
+           Unlike the channel, the process keeps this reference after
+           the channel has closed, so redirects can still be set up then.
+
+        """
+
+        assert self._conn is not None
+        return self._conn
 
     @property
     def logger(self) -> SSHLogger:
